@@ -91,10 +91,10 @@ Proof.
   - (* activator *)
     unfold act_step; cbn [l_pc l_me l_fault l_snap l_err].
     destruct p as [| | | | | | | | | | | | | | e0 | | r | | r | | | | | | |]; try (destruct r as [m0| | | |e1| |]);
-      cbn [use_claim create_cleanup use_admit Current leave fin];
+      cbn [use_claim create_cleanup use_adm Current leave fin];
       break_step; intros H; inversion H; subst; clear H;
       cbn [crit can_win has_rec okres in_purge mk_rec l_kind l_pc l_me set_pc set_snap set_fault set_err finish
-           expired claim mains by_code by_id set_claim set_admit set_tidx set_mains set_glob set_cidx set_by_code set_by_id del_main];
+           expired claim mains by_code by_id set_claim set_adm set_tidx set_mains set_glob set_cidx set_by_code set_by_id del_main];
       (split; [reflexivity|]); (split; [reflexivity|]);
       repeat match goal with |- _ /\ _ => split end;
       try (intros; try discriminate; try congruence; auto; fail);
@@ -105,10 +105,10 @@ Proof.
   - (* revoker *)
     unfold rev_step; cbn [l_pc l_me l_fault l_snap l_err].
     destruct p as [| | | | | | | | | | | | | | e0 | | r | | r | | | | | | |]; try (destruct r as [m0| | | |e1| |]);
-      cbn [use_claim create_cleanup use_admit Current rleave];
+      cbn [use_claim create_cleanup use_adm Current rleave];
       break_step; intros H; inversion H; subst; clear H;
       cbn [crit can_win has_rec okres in_purge mk_rec l_kind l_pc l_me set_pc set_snap set_fault set_err finish
-           expired claim mains by_code by_id set_claim set_admit set_tidx set_mains set_glob set_cidx set_by_code set_by_id del_main];
+           expired claim mains by_code by_id set_claim set_adm set_tidx set_mains set_glob set_cidx set_by_code set_by_id del_main];
       (split; [reflexivity|]); (split; [reflexivity|]);
       repeat match goal with |- _ /\ _ => split end;
       try (intros; try discriminate; try congruence; auto; fail);
@@ -126,10 +126,10 @@ Proof.
   - (* listing + clean-up *)
     unfold list_step; cbn [l_pc l_me l_fault l_snap l_err].
     destruct p as [| | | | | | | | | | | | | | e0 | | r | | r | | | | | | |]; try (destruct r as [m0| | | |e1| |]);
-      cbn [use_claim create_cleanup use_admit purge_revoked Current andb];
+      cbn [use_claim create_cleanup use_adm purge_revoked Current andb];
       break_step; intros H; inversion H; subst; clear H;
       cbn [crit can_win has_rec okres in_purge mk_rec l_kind l_pc l_me set_pc set_snap set_fault set_err finish
-           expired claim mains by_code by_id set_claim set_admit set_tidx set_mains set_glob set_cidx set_by_code set_by_id del_main];
+           expired claim mains by_code by_id set_claim set_adm set_tidx set_mains set_glob set_cidx set_by_code set_by_id del_main];
       (split; [reflexivity|]); (split; [reflexivity|]);
       repeat match goal with |- _ /\ _ => split end;
       try (intros; try discriminate; try congruence; auto; fail);
@@ -489,11 +489,11 @@ Section Inv.
     mains (snd (step t s0)) = mains s0 /\ glob (snd (step t s0)) = glob s0 /\ cidx (snd (step t s0)) = cidx s0.
   Proof. intros Hk Hp. unfold tstep, act_step. rewrite Hk, Hp. cbn. repeat split. Qed.
 
-  (* an activation refused at the admission marker (another request of the same listen client is being admitted, or
+  (* an activation refused at the admission marker (another request of the same listen client is in admission, or
      the SetNX failed) returns an error and changes nothing *)
   Theorem refused_at_admission_changes_nothing t s0 l la ok :
-    l_kind t = KAct l la ok -> l_pc t = PAdmit ->
-    (admitted s0 l = true \/ l_fault t = Some 0) ->
+    l_kind t = KAct l la ok -> l_pc t = PAdm ->
+    (adm_held s0 l = true \/ l_fault t = Some 0) ->
     snd (step t s0) = s0 /\ exists e, l_pc (fst (step t s0)) = PDone (RErr e).
   Proof.
     intros Hk Hp Hr. unfold tstep, act_step. rewrite Hk, Hp.
@@ -502,9 +502,9 @@ Section Inv.
     - rewrite Hf. cbn [tick_fault]. split; [reflexivity|eexists; reflexivity].
   Qed.
 
-  (* and an admitted one takes exactly its own client's marker; other clients' markers are untouched *)
+  (* and one that is let in takes exactly its own client's marker; other clients' markers are untouched *)
   Theorem admission_is_per_client t s0 l la ok :
-    l_kind t = KAct l la ok -> l_pc t = PAdmit -> admitted s0 l = false -> l_fault t <> Some 0 ->
+    l_kind t = KAct l la ok -> l_pc t = PAdm -> adm_held s0 l = false -> l_fault t <> Some 0 ->
     l_pc (fst (step t s0)) = PQuota /\ admk (snd (step t s0)) = l :: admk s0.
   Proof.
     intros Hk Hp Ha Hf. unfold tstep, act_step. rewrite Hk, Hp.
